@@ -7,6 +7,7 @@ from ..rules import common
 from .c15 import asg, key_of, _reach_until_ret
 
 TITLE = "Static asset and template lookup never escapes its root directory"
+TECHNIQUE = 'sanitiser-flow analysis over dominating branch facts at every lookup site (resolved path -> error test -> containment of that same variable -> regular file -> read); closed set of file readers with a constant O_NOFOLLOW flag word; deny list of string-prefix path comparisons'
 AS = "iora::web::Assets"
 AF = "iora/web/assets.hpp"
 O_NOFOLLOW, O_CLOEXEC, O_ACCMODE = 0o400000, 0o2000000, 0o3
